@@ -145,6 +145,8 @@ func runC15(c *Ctx) {
 	checkFloatDigits(c, "R15i")
 	c.Rule("R15j", ruleTextIntParserGuard, 1)
 	checkIntParserGuard(c, "R15j")
+	c.Rule("R15k", ruleTextUnquoteOnly, 2)
+	checkUnquoteOnly(c, "R15k")
 	c.Rule("R15h", ruleTextOpaqueUDT, 1)
 	checkOpaqueUDT(c, "R15h", []string{pSqlite, pMysql, pPostgres})
 
@@ -334,6 +336,10 @@ func runC03(c *Ctx) {
 	checkFKActionGuards(c, "R03f", []string{pSqlite, pMysql, pPostgres})
 	c.Rule("R03g", ruleTextOpaqueUDT, 1)
 	checkOpaqueUDT(c, "R03g", []string{pSqlite})
+	c.Rule("R03k", ruleTextNoBackslash, 1)
+	checkNoBackslashInSqlite(c, "R03k")
+	c.Rule("R03l", ruleTextUnquoteOnly, 2)
+	checkUnquoteOnly(c, "R03l")
 	c.Rule("R03h", ruleTextMayWrapSymmetric, 5)
 	checkMayWrapSymmetric(c, "R03h")
 	c.Rule("R03i", ruleTextFloatDigits, 1)
